@@ -462,6 +462,17 @@ pub fn gen_io_scenario(rng: &mut Rng, thorough: bool, idx: usize) -> IoScenario 
         b.sort_by(|a, b| a.0.cmp(&b.0));
         b.dedup_by(|a, b| a.0 == b.0);
     }
+    // every fifth scenario: values far beyond the 15 overflow pages a leaf cell can name (their
+    // page writes outnumber what any single bookkeeping counter of the cell describes)
+    if idx % 5 == 2 && kind != 3 {
+        for _ in 0..rng.range(1, 3) {
+            let pages = *rng.pick(&[16u64, 17, 20, 33, 64]);
+            let len = (pages * 4092 - rng.below(4000)) as usize;
+            b.push((rng.key(), Acc::Write(Some((len, rng.next() % 1_000_000)))));
+        }
+        b.sort_by(|a, b| a.0.cmp(&b.0));
+        b.dedup_by(|a, b| a.0 == b.0);
+    }
     s += 1;
     c += 1;
     let (prep, target, label) = match kind {
@@ -475,12 +486,43 @@ pub fn gen_io_scenario(rng: &mut Rng, thorough: bool, idx: usize) -> IoScenario 
             vec![Op::Commit { c, nb: false }],
             "overlay-commit",
         ),
-        _ => (vec![], vec![Op::Rollback(1)], "rollback"),
+        _ => {
+            // mostly one step back; sometimes as far as the log reaches (every segment file of the
+            // rollback log is removed or truncated by that single operation)
+            let depth = if rng.chance(1, 3) { (c as usize - 1).min(cfg.max_len as usize).max(1) } else { 1 };
+            (vec![], vec![Op::Rollback(depth)], "rollback")
+        }
     };
     let sz = rng.range(1, 20) as usize;
     let b2 = gen_batch(rng, &mut kg, &live, &BatchSpec { size: sz, mix: ValueMix::Small, p_delete: 30, p_read: 0, p_rw: 30, p_existing: 60 });
     let cont = commit_ops(s + 1, c + 1, b2, false);
     IoScenario { cfg, prefix, prep, target, cont, label: label.to_string() }
+}
+
+/// a rollback as far as the log reaches, with one rollback segment file per record (hook H2): the
+/// single operation removes every segment file of the log
+pub fn gen_rollback_all_scenario(rng: &mut Rng) -> IoScenario {
+    let mut kg = KeyGen::new(rng);
+    let mut live = Live::default();
+    let mut cfg = gen_cfg(rng);
+    cfg.rollback = true;
+    cfg.max_len = *rng.pick(&[4u32, 5, 100]);
+    cfg.segsz = 4096;
+    cfg.ht = 4096;
+    cfg.prepop = false;
+    let mut prefix = vec![Op::Open(cfg.clone())];
+    let n = rng.range(3, 5) as u32;
+    for i in 1..=n {
+        let sz = rng.range(2, 12) as usize;
+        let b = gen_batch(rng, &mut kg, &live, &BatchSpec { size: sz, mix: ValueMix::Small, p_delete: 20, p_read: 0, p_rw: 30, p_existing: 50 });
+        live.apply(&b);
+        prefix.extend(commit_ops(i, i, b, false));
+    }
+    prefix.push(Op::Close);
+    let depth = (n as usize).min(cfg.max_len as usize);
+    let b2 = gen_batch(rng, &mut kg, &live, &BatchSpec { size: 5, mix: ValueMix::Small, p_delete: 30, p_read: 0, p_rw: 30, p_existing: 60 });
+    let cont = commit_ops(n + 1, n + 1, b2, false);
+    IoScenario { cfg, prefix, prep: vec![], target: vec![Op::Rollback(depth)], cont, label: "rollback-all".to_string() }
 }
 
 pub struct IoOutcome {
@@ -610,6 +652,20 @@ pub fn run_io_scenario(sc: &IoScenario, what: &str, rng: &mut Rng, max_points: u
             for d in 0..6u64 {
                 if m + d < n_events as u64 { keep.push((m + d, "before")); }
                 if m >= d { keep.push((m - d, "before")); }
+            }
+        }
+        if what != "crash" {
+            // fault runs: half of the budget goes to the asynchronous page writes (their completions
+            // are collected by counting, the place where a failure is most easily lost), latest first
+            let mut uw: Vec<u64> = rec.events.iter().filter(|e| e.kind == "UW").filter_map(|e| e.armed).collect();
+            uw.reverse();
+            for (j, k) in uw.iter().enumerate() {
+                if keep.len() >= max_points / 2 {
+                    break;
+                }
+                if (j < 6 || rng.chance(1, 2)) && !keep.contains(&(*k, "before")) {
+                    keep.push((*k, "before"));
+                }
             }
         }
         while keep.len() < max_points {
